@@ -35,6 +35,22 @@ Definition gcirc_S (units : Z) (ra1 dec1 ra2 dec2 : R) : R :=
   | _ => 0
   end.
 
+(* the haversine and the two unit vectors in terms of the caller's arguments, per unit convention *)
+Definition hav_S (units : Z) (ra1 dec1 ra2 dec2 : R) : R :=
+  match units with
+  | 0%Z => hav dec1 ra1 dec2 ra2
+  | 1%Z => hav (deg dec1) (deg (15 * ra1)) (deg dec2) (deg (15 * ra2))
+  | 2%Z => hav (deg dec1) (deg ra1) (deg dec2) (deg ra2)
+  | _ => 0
+  end.
+Definition pt_S (units : Z) (ra dec : R) : V3 :=
+  match units with
+  | 0%Z => vec dec ra
+  | 1%Z => vec (deg dec) (deg (15 * ra))
+  | 2%Z => vec (deg dec) (deg ra)
+  | _ => vec 0 0
+  end.
+
 (* rotation by the angle i about the x axis (the node direction) *)
 Definition rotx (i : R) (v : V3) : V3 :=
   let '(x, y, z) := v in (x, y * cos i - z * sin i, y * sin i + z * cos i).
